@@ -4,6 +4,11 @@
 //! case on stdout, so the python driver can shard cases over processes.
 use std::io::{Read, Seek, SeekFrom, Write};
 use std::panic::{catch_unwind, AssertUnwindSafe};
+use std::sync::atomic::{AtomicU64, Ordering};
+
+/// mirrors of the counters of the most recently used Meter (readable while a reader borrows the stream)
+pub static G_OPS: AtomicU64 = AtomicU64::new(0);
+pub static G_BYTES: AtomicU64 = AtomicU64::new(0);
 
 pub fn unhex(s: &str) -> Vec<u8> {
     let s = s.trim();
@@ -87,14 +92,16 @@ impl<S> Meter<S> {
     pub fn new(inner: S) -> Self {
         Meter { inner, ops: 0, bytes: 0, fail_at: None, fail_kind: 0, fired: false, chunk: 0, interrupt_every: 0, interrupted_last: false }
     }
-    fn tick(&mut self, is_write: bool) -> std::io::Result<Option<usize>> {
-        if self.interrupt_every > 0 && !self.interrupted_last && (self.ops + 1) % self.interrupt_every == 0 {
+    fn tick(&mut self, is_write: bool, is_seek: bool) -> std::io::Result<Option<usize>> {
+        // only reads and writes may legally report Interrupted (read_exact / write_all retry them); seeks are never retried by anyone
+        if !is_seek && self.interrupt_every > 0 && !self.interrupted_last && (self.ops + 1) % self.interrupt_every == 0 {
             self.interrupted_last = true;
             return Err(std::io::Error::new(std::io::ErrorKind::Interrupted, "injected interrupt"));
         }
         self.interrupted_last = false;
         let idx = self.ops;
         self.ops += 1;
+        G_OPS.store(self.ops, Ordering::Relaxed);
         if self.fail_at == Some(idx) {
             self.fired = true;
             if self.fail_kind == 1 && is_write {
@@ -108,19 +115,20 @@ impl<S> Meter<S> {
 
 impl<S: Read> Read for Meter<S> {
     fn read(&mut self, buf: &mut [u8]) -> std::io::Result<usize> {
-        if let Some(n) = self.tick(false)? {
+        if let Some(n) = self.tick(false, false)? {
             return Ok(n);
         }
         let lim = if self.chunk > 0 { buf.len().min(self.chunk) } else { buf.len() };
         let n = self.inner.read(&mut buf[..lim])?;
         self.bytes += n as u64;
+        G_BYTES.store(self.bytes, Ordering::Relaxed);
         Ok(n)
     }
 }
 
 impl<S: Write> Write for Meter<S> {
     fn write(&mut self, buf: &[u8]) -> std::io::Result<usize> {
-        if let Some(n) = self.tick(true)? {
+        if let Some(n) = self.tick(true, false)? {
             return Ok(n);
         }
         let lim = if self.chunk > 0 { buf.len().min(self.chunk) } else { buf.len() };
@@ -135,7 +143,7 @@ impl<S: Write> Write for Meter<S> {
 
 impl<S: Seek> Seek for Meter<S> {
     fn seek(&mut self, pos: SeekFrom) -> std::io::Result<u64> {
-        self.tick(false)?;
+        self.tick(false, true)?;
         self.inner.seek(pos)
     }
 }
